@@ -18,6 +18,14 @@ type Cfg struct {
 	Writers int  `json:"writers"` // number of writers (= collection workers)
 	Delta   bool `json:"delta"`   // UseDeltaInterleaving
 	Hold    bool `json:"hold"`    // hold released garbage lists at the gate until an explicit GCUnlink
+	Guard   bool `json:"guard"`   // MM with the guard-page allocator (use after free faults immediately)
+}
+
+// Mem is the allocator interface shared by the registry and the guard allocator.
+type Mem interface {
+	Malloc(int) unsafe.Pointer
+	Free(unsafe.Pointer)
+	Counts() (mallocs, frees int64, live int, errs []string)
 }
 
 // DB wraps a nitro instance with its gate and allocator.
@@ -25,10 +33,18 @@ type DB struct {
 	*nitro.Nitro
 	Cfg   Cfg
 	A     *Alloc
+	G     *Guard
+	Mem   Mem
 	W     []*nitro.Writer
 	gate  *gcGate
 	store *skiplist.Skiplist
 }
+
+// GuardSlots is the number of blocks a guard-mode instance can allocate.
+var GuardSlots = 200000
+
+// MemEvent, if set, receives every malloc/free of instances opened afterwards.
+var MemEvent func(kind string, id int64, size int)
 
 var (
 	hookOnce sync.Once
@@ -58,8 +74,19 @@ func Open(c Cfg) *DB {
 	}
 	d := &DB{Cfg: c}
 	if c.MM {
-		d.A = NewAlloc()
-		cfg.UseMemoryMgmt(d.A.Malloc, d.A.Free)
+		if c.Guard {
+			g, err := NewGuard(GuardSlots, 1)
+			if err != nil {
+				panic("guard allocator: " + err.Error())
+			}
+			g.OnEvent = MemEvent
+			d.G, d.Mem = g, g
+		} else {
+			d.A = NewAlloc()
+			d.A.OnEvent = MemEvent
+			d.Mem = d.A
+		}
+		cfg.UseMemoryMgmt(d.Mem.Malloc, d.Mem.Free)
 	}
 	if c.Delta {
 		cfg.UseDeltaInterleaving()
